@@ -154,7 +154,7 @@ func newPackage(program *loader.Program, pkgInfo *loader.PackageInfo, plugins []
 				}
 				changed = true
 				log.Printf("changing function call name from %s to %s", call.Name, name)
-				call.Expr.Fun = ast.NewIdent(name)
+				call.Expr.Fun = &ast.Ident{NamePos: call.Expr.Fun.Pos(), Name: name}
 			}
 		}
 
